@@ -276,4 +276,78 @@ def certFull (env : Env) (defs : Spec.Defs) : Nat → GoTy → Schema → Bool
       | .int .int => s.node.types == ["integer"]
       | _ => false
 
+
+/-! ### … plus string members (length limits, patterns) and array members (item counts) -/
+
+/-- nillable? of the Go types a string validator is attached to -/
+def strBase : GoTy → Option Bool
+  | .string => some false
+  | .ptr .string => some true
+  | _ => none
+
+def strJustified (fs : List Field) (s : Schema) (field : String) (mn mx : Int) (pat : String) (nl : Bool) : Bool :=
+  match fs.find? (fun fl => fl.name = field) with
+  | some fl => (match alookup fl.jsonKey s.node.props with
+     | some ps => ps.node.ref == "" && decide (strBase fl.ty = some nl) && ps.node.types == ["string"] &&
+         decide (mn = ps.node.minLength) && decide (mx = ps.node.maxLength) && pat == ps.node.pattern &&
+         (nl || s.node.required.contains fl.jsonKey)
+     | none => false)
+  | none => false
+
+def sliceElemOK : GoTy → Bool
+  | .slice t => (match t with | .named _ => false | .int .u8 => false | _ => true)
+  | _ => false
+
+def arrJustified (fs : List Field) (s : Schema) (field : String) (mn mx : Int) : Bool :=
+  match fs.find? (fun fl => fl.name = field) with
+  | some fl => (match alookup fl.jsonKey s.node.props with
+     | some ps => ps.node.ref == "" && sliceElemOK fl.ty && ps.node.types == ["array"] &&
+         decide (mn = ps.node.minItems) && decide (mx = ps.node.maxItems) && decide (0 ≤ mx)
+     | none => false)
+  | none => false
+
+/-- every validator of the struct is what the schema asks for -/
+def valJustified (fs : List Field) (s : Schema) : Validator → Bool
+  | .required k => s.node.required.contains k
+  | .numeric field nl c => field != "" && numJustified fs s field nl c
+  | .string field mn mx pat nl => field != "" && strJustified fs s field mn mx pat nl
+  | .array field depth mn mx => field != "" && depth == 1 && arrJustified fs s field mn mx
+  | _ => false
+
+/-- `certFull` plus string members with length limits / patterns and array members with item counts -/
+def certAll (env : Env) (defs : Spec.Defs) : Nat → GoTy → Schema → Bool
+  | 0, _, _ => false
+  | f + 1, ty, s =>
+    if s.node.ref ≠ "" then
+      (match Spec.refName s.node.ref with
+       | some name => (match alookup name defs with | some t => certAll env defs f ty t | none => false)
+       | none => false)
+    else match ty with
+      | .ptr t => certAll env defs f t s
+      | .named nm =>
+        (match env.resolve 8 nm with
+         | some d => (match d.body, d.ty with
+            | .plain vs m, .strct fs =>
+                d.hasMethod == m && (m || vs.isEmpty) && !d.ty.isFmt &&
+                s.node.types == ["object"] && s.node.enum.isNone && s.node.allOf.isEmpty && s.node.anyOf.isEmpty &&
+                !s.node.hasNot && s.node.addl.isNone &&
+                (fs.find? (fun fl => fl.name = "AdditionalProperties")).isNone &&
+                decide (fs.length ≤ 31) && decide ((fs.map (·.name)).Nodup) && decide ((fs.map (·.jsonKey)).Nodup) &&
+                vs.all (valJustified fs s) &&
+                fs.all (fun fl => (akeys s.node.props).contains fl.jsonKey) &&
+                s.node.props.all (fun p => match bindKey fs p.1 with
+                  | some fld => fld.jsonKey == p.1 && certAll env defs f fld.ty p.2
+                  | none => false)
+            | _, _ => false)
+         | none => false)
+      | .slice t =>
+        s.node.types == ["array"] && s.node.enum.isNone && s.node.allOf.isEmpty && s.node.anyOf.isEmpty && !s.node.hasNot &&
+        (match t with | .named _ => false | .int .u8 => false | _ => true) &&
+        (match s.node.items with | some it => certAll env defs f t it | none => false)
+      | .string => s.node.types == ["string"] && s.node.format == ""
+      | .bool => s.node.types == ["boolean"]
+      | .float64 => s.node.types == ["number"]
+      | .int .int => s.node.types == ["integer"]
+      | _ => false
+
 end GJS
